@@ -41,6 +41,8 @@ INVARIANT C12_429After
 INVARIANT C12_OthersProceed
 INVARIANT C12_Recovers
 INVARIANT C13_NoPanic
+INVARIANT X01_QueueDiscipline
+INVARIANT X02_ResyncAfter
 INVARIANT C13_RejectedNoWrites
 INVARIANT C13_HookErrNoWrites
 INVARIANT C16_OnlyNamedKeys
